@@ -99,7 +99,8 @@ def oracle(s, r):
 def cases_for(tier):
     if tier == "thorough":
         return ol.lattice([5, 7, 8, 9, 11, 13, 17], [4, 8, 12, 16, 20, 24, 32], "geo,A11,S,Scache,linesonly", tier,
-                          need_nt4=True, cycle_offsets=(0, 1, 2), extra={"tlist": "1,3"})
+                          need_nt4=True, cycle_offsets=(0, 1, 2), extra={"tlist": "1,3"}) + \
+            ol.full_block([5, 7, 8], [4, 8, 12], "geo,A11,S,Scache,linesonly", tier, need_nt4=True, extra={"tlist": "1,3"})
     return ol.lattice([5, 6, 7, 8, 9, 11], [4, 8, 12, 16], "geo,A11,S,Scache,linesonly", tier, cycle_offsets=(0, 1), need_nt4=True, extra={"tlist": "1,3"})
 
 
@@ -119,10 +120,13 @@ def main(tier):
                 tot[k] = tot.get(k, 0) + v
         nontriv.add((s["nr"], s["nt"], s["circles"], s["dirbc"], s["geom"], s["alpha"], s["beta"], s["rpat"], s["tpat"]))
         for key, what, extra in viols:
-            rp = {"case": s["line"], "summary": ol.spec_summary(s)}
+            rp = ol.replay_record(s)
             rp.update(extra)
             rep.violation(key, what + "  [case %s]" % json.dumps(ol.spec_summary(s)), rp)
+    hist_cov = ol.history_block(binary, [c for c in cases if not c["id"].startswith("f")], rep, n=(12 if tier == "thorough" else 8))
     cov = {
+        "full_product_block_cases": sum(1 for c in cases if c["id"].startswith("f")),
+        "full_product_block_rule": ol.FULL_BLOCK_RULE,
         "states": len(results), "transitions": int(tot.get("pairs", 0)),
         "traces_validated_against_impl": len(results),
         "evaluations": len(results), "distinct_nontrivial": len(nontriv),
@@ -136,6 +140,7 @@ def main(tier):
         "samples": [ol.spec_summary(s) for s, _, _ in results[:3]],
         "exhaustive": True,
     }
+    cov.update(hist_cov)
     return rep.finish(cov, ["non-orthogonal geometries (Shafranov, Czarny, Culham) are part of the lattice so that mixed "
                             "terms are non-zero", "eigenvalues from numpy/LAPACK"])
 
